@@ -30,8 +30,12 @@ package nfa
 //@   ensures stampsOK(state)
 //@   ensures state.Longest == old(state.Longest)
 //@   ensures base(state.Visited) == old(base(state.Visited)) || fresh(state.Visited)
+// memory HELD (capacity), not only the length in use: a table is kept as it is or replaced by one of exactly the size
+// needed, which CanHandle bounds by maxVisitedSize - so the capacity never exceeds the cap, whatever the history
+//@   ensures cap(state.Visited) == old(cap(state.Visited)) || cap(state.Visited) == b.numStates * (haystackLen + 1)
 //@   loop 1: invariant 0 <= rangeindex + 1 && rangeindex + 1 <= cap(state.Visited) && state.Generation == 0
 //@   loop 1: invariant len(state.Visited) == b.numStates * (haystackLen + 1) && off(state.Visited) == 0
+//@   loop 1: invariant cap(state.Visited) == old(cap(state.Visited)) || cap(state.Visited) == b.numStates * (haystackLen + 1)
 //@   loop 1: invariant forall i :: 0 <= i && i <= rangeindex ==> state.Visited[i] == 0
 //@   loop 1: invariant state.InputLen == haystackLen && state.NumStates == b.numStates && state.SpanStart == 0 && state.Longest == old(state.Longest)
 //@   loop 1: invariant base(state.Visited) == old(base(state.Visited)) || fresh(state.Visited)
@@ -131,6 +135,8 @@ package nfa
 //@   loop 1: decreases rangelen - rangeindex
 
 //@ uninterpreted spec func btFound(b *BoundedBacktracker, longest bool, h []byte, at int) bool
+//@ uninterpreted spec func btStart(b *BoundedBacktracker, longest bool, h []byte, at int) int
+//@ uninterpreted spec func btEnd(b *BoundedBacktracker, longest bool, h []byte, at int) int
 // The engine builds a second backtracker from an NFA in which `.` is [\x00-\x7F]: its answers are the pattern's only on
 // pure-ASCII input. btAsciiOnly names that property of a backtracker (ASSUMED for the engine's two instances, see meta:
 // btOK); every search entry point requires ASCII input of such a backtracker, so a dispatcher that consults it behind
@@ -158,6 +164,7 @@ package nfa
 // ASSUMED: the backtracker decides the reference in the state's mode (named by an uninterpreted function; the meta
 // layer links it to the engine's reference)
 //@   trust ensures result2 == btFound(b, old(state.Longest), haystack, at)
+//@   trust ensures result2 ==> result0 == btStart(b, old(state.Longest), haystack, at) && result1 == btEnd(b, old(state.Longest), haystack, at)
 //@   loop 1: invariant at <= startPos && startPos <= len(haystack) + 1 && spanLen == len(haystack) - at
 //@   loop 1: invariant btStateOK(b, state) && state.SpanStart == at && state.InputLen == spanLen
 //@   loop 1: decreases len(haystack) + 1 - startPos
@@ -261,6 +268,14 @@ package nfa
 //@   requires wfST(st)
 //@   ensures result != nil ==> len(result) == st.activeSlots && base(result) == base(st.table) && off(result) == st.scratchOffset
 
+// the PikeVM's rule for replacing the best match seen so far (leftmost start, then the longer end): pure, so it can be
+// stated exactly; which candidates the search loops offer to it is out of reach (DESIGN 7.1)
+//@ func isBetterMatchWithLongest
+//@   props C10 C02 C07
+//@   ensures result == (bestStart == -1 || candStart < bestStart || (candStart == bestStart && candEnd > bestEnd))
+//@ func (*PikeVM).isBetterMatch
+//@   props C10 C02 C07
+//@   ensures result == (bestStart == -1 || candStart < bestStart || (candStart == bestStart && candEnd > bestEnd))
 // the mode flag of a PikeVM (what its searches do with it is out of reach: DESIGN 7.1)
 //@ func (*PikeVM).SetLongest
 //@   props C10 C11 C07
